@@ -14,7 +14,7 @@ import PdfModel.Lemmas.Offsets
 -/
 
 namespace Offsets
-open PdfLex
+open PdfLex PdfShift
 
 variable {R : Type}
 
